@@ -1,68 +1,14 @@
-"""per-property configuration of ./check"""
+"""per-property configuration of ./check: one file lib/cfg/<id>.py defining CFG"""
+import os, glob, importlib.util, sys
+_here = os.path.dirname(os.path.abspath(__file__))
+sys.path.insert(0, _here)
+PROPS = {}
+for _f in sorted(glob.glob(os.path.join(_here, "cfg", "C*.py"))):
+    _pid = os.path.basename(_f)[:-3]
+    _spec = importlib.util.spec_from_file_location("cfg_" + _pid, _f)
+    _m = importlib.util.module_from_spec(_spec)
+    _spec.loader.exec_module(_m)
+    PROPS[_pid] = _m.CFG
 
-LEAN_TB = ["Lean 4.33.0 kernel (lake build; leanchecker re-check in the thorough tier)",
-           "axioms allowed: propext, Classical.choice, Quot.sound (audited by #print axioms on every property theorem)",
-           "hand-written Lean model of the anchored Go/C code, tied to /repo by the differential correspondence check (Go harness, build tag verif, vs compiled Lean model `vmodel`)",
-           "Go compiler/runtime, cgo, the harness generators and canonicalisation"]
-
-PROPS = {
-    "C20": {
-        "lean_modules": ["ObiVerif.Props.C20"],
-        "gen": False,
-        "thorough_seeds": 8,
-        "rule": "cases = (width, operation, operands) drawn from word-boundary limb values (0,1,2^k-1,2^k,2^k+1,all-ones,...) and random limbs, "
-                "plus every shift amount 0..width+64 on three fixed values per width; a case is non-trivial when it is distinct and is a well-formed operation (not bad-op)",
-        "trusted_base": LEAN_TB + ["math/bits Add64/Sub64/Mul64/Div64/LeadingZeros64 modelled by their documented arithmetic meaning",
-                                   "math/big as the independent oracle of the failing-input search"],
-        "technique": "Lean 4 theorems on a limb-level model of obifp + differential correspondence with the real methods + math/big oracle search",
-        "level_text": "Exactness (value when it fits, overflow signalled exactly when it does not) of the three widths is proved in Lean for all operands on a limb-by-limb transcription of uint64.go/uint128.go/uint256.go; the transcription is tied to /repo by running model and real methods on the same operand lines every run. Uint128.Mul is proved only for operands with one zero high limb (known finding D27b, pinned by the repository's own test).",
-        "level_note": "Trusted: Lean kernel; math/bits primitives modelled by their documented meaning; the hand transcription (validated differentially, ~16k operand lines per quick run); Uint128.QuoRem trial-quotient branch is tied by correspondence and oracle only unless listed among the theorems in the evidence file.",
-        "modelled": "pkg/obifp uint64.go, uint128.go, uint256.go: every method, limb by limb (Model/Fp.lean)",
-        "assumptions": ["log.Warnf has no effect on results", "log.Panicf is the only overflow signal"],
-    },
-}
-
-PROPS["C04"] = {
-    "lean_modules": ["ObiVerif.Props.C04"],
-    "gen": False,
-    "thorough_seeds": 4,
-    "rule": "cases = (writer, formatting workers, arrival history of (order, record count) chunks): corpus of drain-after-turn / empty-batch histories, random permutations of up to 7 batches with random empty subsets, "
-            "every permutation of n<=5 batches in the thorough tier; with one formatting worker the harness forces the arrival order at the writer goroutine; non-trivial = distinct history with at least two chunks",
-    "technique": "Lean 4 theorem on the re-sequencing writer machine for every arrival permutation and every set of empty batches + differential correspondence with the real writers driven in forced arrival orders + decode-back oracle",
-    "level_text": "For every n, every arrival permutation of chunks 0..n-1 and every subset of empty chunks, the model of the four writers emits the chunks once, in order (FASTA/FASTQ/CSV: concatenation; JSON: '[\\n' + non-empty chunks joined by ',\\n' + '\\n]\\n', which is the array of the records when each chunk is the join of its records) — proved in Lean by the invariant of the re-sequencing buffer. The model is tied to the real WriteFasta/WriteFastq/WriteJSON/WriteCSV by running them on forced arrival histories and comparing bytes; encoding/json and encoding/csv decode the real output back into the records (failing-input search).",
-    "level_note": "Trusted: Lean kernel; the transcription of the writer loop (Model/Reseq.lean, Model/Writer.lean); per-batch formatters are data for the model (their output is fed to it) and are checked by the decode-back oracle only; goroutine liveness (Close protocol) is exercised under a watchdog, not proved.",
-    "trusted_base": LEAN_TB + ["per-batch formatter output (FormatFastaBatch, FormatFastqBatch, FormatJSONBatch, FormatCVSBatch) taken as data",
-                               "encoding/json and encoding/csv as decode-back oracle"],
-    "modelled": "WriteSeqFileChunk (seqfile_chunk_write.go), writer goroutines of WriteJSON (json_writer.go) and WriteCSV (csv_writer.go): next/received/drain loop and framing",
-    "assumptions": ["each batch number is delivered once to the writer (Contract of C03)", "channel blocking and goroutine termination are runtime behaviour (watchdog only)"],
-}
-
-PROPS["C03"] = {
-    "lean_modules": ["ObiVerif.Props.C03"],
-    "gen": False,
-    "thorough_seeds": 8,
-    "rule": "cases = (combinator, parameters, input streams as arrival-ordered lists of numbered batches): random partitions of 0..40 records into 0..6 batches (sizes >= 0) in a random arrival order, 1..4 workers, empty first/middle streams for concat, "
-            "a few histories with a gap (outside the contract), every arrival permutation of n<=5 batches in the thorough tier; non-trivial = distinct well-formed case (not bad-op)",
-    "technique": "Lean 4 theorems on functional models of the obiiter combinators for every batch partition and arrival permutation + differential correspondence with the real combinators driven in forced arrival orders + exactly-once/in-order oracle",
-    "level_text": "Each combinator (SortBatches, Rebatch, FilterEmpty, Concat, DivideOn, FilterOn, MakeISliceWorker, Distribute, PairTo, Pool, IBatchOver) is transcribed as a function on arrival-ordered batch lists; the theorems listed in the evidence state, for every partition into batches (empty ones included) and every arrival permutation, that the output is numbered 0,1,2,... and carries exactly the records it must, in input order. The transcription is tied to the real goroutine-based code by pushing the same arrival histories through real iterators and comparing the delivered (number, ids) lists; an oracle checks exactly-once/in-order/numbering directly on the real output.",
-    "level_note": "Trusted: Lean kernel; the transcription (Model/Iter.lean). Partial: 'always terminates' — the functional model cannot deadlock; channel blocking, WaitAndClose and the shared finished flag of Split clones are exercised under a 5 s watchdog only. IFragments and IMergeSequenceBatch are not modelled here (fragmenting is covered by C11's oracle, merging by C06).",
-    "trusted_base": LEAN_TB + ["Go channels/WaitGroup semantics (runtime)", "obiseq.BioSequence identity carried by the id string"],
-    "modelled": "pkg/obiiter batchiterator.go (SortBatches, Concat, Pool, Rebatch, FilterEmpty, DivideOn, FilterOn, IBatchOver), workers.go (MakeISliceWorker), distribute.go (Distribute), paired.go (PairTo)",
-    "assumptions": ["each upstream batch number is pushed once (Contract)", "PairTo is used on streams with the same number of records"],
-}
-
-PROPS["C07"] = {
-    "lean_modules": ["ObiVerif.Props.C07"],
-    "gen": True,
-    "thorough_seeds": 8,
-    "rule": "cases = all 256 bytes through nucComplement; every string of length <=2 (quick) / <=3 (thorough) over the 19-symbol alphabet; every (from,to) window incl. out-of-range, linear and circular, of four sequences; "
-            "random sequences to 500 bases with qualities; position-bearing annotations under rc / subsequence; random histories of new/copy/rc/rc-in-place/sub/set/recycle on up to 6 objects; non-trivial = distinct well-formed case whose input byte survives lower-casing",
-    "technique": "Lean 4 theorems (table lemmas by decide over tables regenerated from the source; algebraic laws by induction) + differential correspondence of the model with the real obiseq methods, including object histories + naive-implementation oracle",
-    "level_text": "Complement involution and agreement of the three complement tables are decided over tables regenerated from /repo on every run; rc∘rc = id, the in-place two-index loop = reverse∘map complement, rc of a subsequence = mirrored subsequence of rc, circular subsequence = window of s++s, the coordinate transforms of position-bearing annotations and the frame property of object histories (an operation changes only its target) are proved for all sequences, lengths and windows on the Lean model (see evidence for the list actually proved). The model is tied to ReverseComplement / Subsequence / Copy / Recycle by running both on the same lines, object histories included.",
-    "level_note": "Trusted: Lean kernel; transcription Model/SeqOps.lean; extractor (literals only). The sync.Pool of byte slices is not modelled as a heap: absence of aliasing in the real code is observed through object histories (every operation's effect on every other live object is compared) — partial for real concurrent reuse.",
-    "trusted_base": LEAN_TB + ["extract/ (go/ast literal extraction of _revcmpDNA, revcompnuc, LX_BIO_CDNA_ALPHA)", "naive reverse complement / window oracles in the harness"],
-    "modelled": "pkg/obiseq revcomp.go (nucComplement, ReverseComplement loop, _revcmpMutation), subseq.go (Subsequence, _subseqMutation), value semantics of Copy/Recycle",
-    "assumptions": ["circular windows are given with to <= len (the code reduces larger values modulo len)"],
-}
-
+# properties not claimed, with the reason (kept current by hand)
 NOT_CLAIMED = {}
